@@ -297,7 +297,10 @@ func (x *Exec) callStatic0(fr *Frame, st *State, fn *ssa.Function, args, bind []
 		if fr.depth+1 > x.maxDepth {
 			failf("inlining depth exceeded at %s", fn.Name())
 		}
-		if c == nil && fn.Parent() == nil {
+		// a helper without contract entry that contains a loop is where precision can be lost (no invariants were
+		// written for it): it changes the function's fit. A loop-free helper is inlined exactly, like the same
+		// lines written in place, and does not.
+		if c == nil && fn.Parent() == nil && hasBackEdge(fn) {
 			if x.fitHelpers == nil {
 				x.fitHelpers = map[string]bool{}
 			}
@@ -1407,4 +1410,16 @@ func callInstrAt(fn *ssa.Function, pos token.Pos) (*ssa.BasicBlock, int) {
 		}
 	}
 	return nil, 0
+}
+
+// hasBackEdge: the function's control-flow graph has a cycle (a successor that dominates its predecessor).
+func hasBackEdge(fn *ssa.Function) bool {
+	for _, b := range fn.Blocks {
+		for _, s := range b.Succs {
+			if s.Dominates(b) {
+				return true
+			}
+		}
+	}
+	return false
 }
